@@ -381,3 +381,6 @@ Definition print_file (f : vfile) : text :=
 
 Definition cues_of (f : vfile) : list cue :=
   flat_map (fun b => match b with BCue c => [c] | _ => [] end) (f_blocks f).
+(* a cue without payload shows nothing: it needs no paragraph (and must not disturb the other cues) *)
+Definition shown_cues (f : vfile) : list cue :=
+  filter (fun c => match print_cue_text (c_payload c) with [] => false | _ => true end) (cues_of f).
